@@ -148,7 +148,19 @@ def record(path, recs, ops, title, box):
         elif kind == 'len':
             ev.append({'op': 'len', 'n': len(s)})
         elif kind == 'iterall':
-            runs, ok = _runs_of(list(s), recs)
+            nall = sum(1 for e_ in ev if e_['op'] == 'iterall')
+            if nall % 2 == 0:
+                runs, ok = _runs_of(list(s), recs)
+            else:
+                # a complete iteration over a view that nobody else holds (`for r in SystemGro(path)`, an iterator
+                # returned by a helper whose local view went out of scope)
+                def helper():
+                    return iter(SystemGro(path))
+                try:
+                    got = [r for r in SystemGro(path)] if nall % 4 == 1 else list(helper())
+                    runs, ok = _runs_of(got, recs)
+                except Exception:
+                    runs, ok = [], False
             ev.append({'op': 'iterall', 'runs': runs, 'data_ok': ok})
     return ev
 
